@@ -55,12 +55,29 @@ class Controller:
             self.sem[j].release()
 
 
-def run(bodies, first=0, switches=(), prefix=None, timeout=60, granularity='line'):
-    """bodies: list of zero-argument callables.  -> (results, counts, log)   results[i] = ('ok', value) | ('exc', exception)"""
+def run(bodies, first=0, switches=(), prefix=None, timeout=60, granularity='line', write_probe=None):
+    """bodies: list of zero-argument callables.  -> (results, counts, log)   results[i] = ('ok', value) | ('exc', exception)
+
+    write_probe: optional (cls, ids) — while the schedule runs, ``cls.__setattr__`` is wrapped so that every attribute write by a
+    harness thread to an object whose id is in ``ids`` is a scheduling point too (granularity 'writes': *only* those writes are
+    points).  Used to interleave two first parses inside pyparsing's lazy set-up of the shared grammar."""
     prefix = prefix or ''
     n = len(bodies)
     ctl = Controller(n, first, switches, prefix)
     results = [None] * n
+    tls = threading.local()
+    restore = None
+    if write_probe is not None:
+        cls, ids = write_probe
+        orig = cls.__setattr__
+
+        def probe(self, name, value):
+            i = getattr(tls, 'index', None)
+            if i is not None and id(self) in ids:
+                ctl.point(i)
+            orig(self, name, value)
+        cls.__setattr__ = probe
+        restore = (cls, orig)
 
     def make_trace(i):
         def local(frame, event, arg):
@@ -69,6 +86,8 @@ def run(bodies, first=0, switches=(), prefix=None, timeout=60, granularity='line
             return local
 
         def glob(frame, event, arg):
+            if granularity == 'writes':
+                return None
             if event == 'call' and frame.f_code.co_filename.startswith(prefix):
                 if granularity == 'call':
                     ctl.point(i)        # one scheduling point per entry into a pydbml function
@@ -79,6 +98,7 @@ def run(bodies, first=0, switches=(), prefix=None, timeout=60, granularity='line
 
     def worker(i):
         ctl.sem[i].acquire()
+        tls.index = i
         sys.settrace(make_trace(i))
         try:
             results[i] = ('ok', bodies[i]())
@@ -89,12 +109,16 @@ def run(bodies, first=0, switches=(), prefix=None, timeout=60, granularity='line
             ctl.finished(i)
 
     threads = [threading.Thread(target=worker, args=(i,), daemon=True) for i in range(n)]
-    for t in threads:
-        t.start()
-    ctl.current = first
-    ctl.sem[first].release()
-    for t in threads:
-        t.join(timeout)
-        if t.is_alive():
-            raise RuntimeError('scheduler: a harness thread did not finish (deadlock or runaway)')
+    try:
+        for t in threads:
+            t.start()
+        ctl.current = first
+        ctl.sem[first].release()
+        for t in threads:
+            t.join(timeout)
+            if t.is_alive():
+                raise RuntimeError('scheduler: a harness thread did not finish (deadlock or runaway)')
+    finally:
+        if restore is not None:
+            restore[0].__setattr__ = restore[1]
     return results, list(ctl.count), list(ctl.log)
